@@ -14,4 +14,4 @@ reg(Check(
     modelled=["cache/cache.go: Cache.GnmiUpdate, Target.GnmiUpdate, gnmiUpdate, gnmiRemove, toDeleteNotification, checkTimestamp, Reset, Remove, Add, updateMeta/generateMetaUpdates, Query; metadata/metadata.go counters; ctree via CTreeModel; path.ToStrings/joinPrefixAndPath via PathModel"],
 ),
     level_text="Theorems in coq/Props/C02.v state the timestamp discipline over the Gallina model of cache.Target for all notification histories (per-leaf refinement to a four-line recursion, stale / equal-timestamp / delete / future / collision clauses); the model is tied to cache/cache.go by a correspondence run (all short histories on one leaf + seeded random histories) evaluated inside Coq, which also applies a flat-map specification of the property to the implementation's own Query results and error classes.",
-    level_note="Trusted: Coq kernel + vm_compute, the hand-written model (validated only on the explored cases), the Go harness projection. One clock reading per call, single goroutine.")
+    level_note="Trusted: Coq kernel + vm_compute, the hand-written model (validated only on the explored cases), the Go harness projection. One clock reading per call, single goroutine. Since round 7 the history refinement holds for all panic-free histories with refusal (collision) and the latest accepted timestamp both decided on the specification side (C02_leaf_holds_newest_all / _spec): K_P's flat-map bookkeeping is refined by the model.")
